@@ -45,7 +45,7 @@ func (f *OrefaFile) Chdir() error {
 		return &fs.PathError{Op: op, Path: f.name, Err: fs.ErrClosed}
 	}
 
-	if !f.nd.mode.IsDir() {
+	if !f.nd.isDir {
 		err := error(avfs.ErrNotADirectory)
 		if f.vfs.OSType() == avfs.OsWindows {
 			err = avfs.ErrWinDirNameInvalid
@@ -183,7 +183,7 @@ func (f *OrefaFile) Read(b []byte) (n int, err error) {
 	}
 
 	nd := f.nd
-	if nd.mode.IsDir() {
+	if nd.isDir {
 		err = avfs.ErrIsADirectory
 		if f.vfs.OSType() == avfs.OsWindows {
 			err = avfs.ErrWinIncorrectFunc
@@ -245,7 +245,7 @@ func (f *OrefaFile) ReadAt(b []byte, off int64) (n int, err error) {
 	}
 
 	nd := f.nd
-	if nd.mode.IsDir() {
+	if nd.isDir {
 		err = avfs.ErrIsADirectory
 		if f.vfs.OSType() == avfs.OsWindows {
 			err = avfs.ErrWinIncorrectFunc
@@ -310,7 +310,7 @@ func (f *OrefaFile) ReadDir(n int) ([]fs.DirEntry, error) {
 	}
 
 	nd := f.nd
-	if !nd.mode.IsDir() {
+	if !nd.isDir {
 		return nil, &fs.PathError{Op: op, Path: f.name, Err: f.vfs.err.NotADirectory}
 	}
 
@@ -385,7 +385,7 @@ func (f *OrefaFile) Readdirnames(n int) (names []string, err error) {
 	}
 
 	nd := f.nd
-	if !nd.mode.IsDir() {
+	if !nd.isDir {
 		return nil, &fs.PathError{Op: op, Path: f.name, Err: f.vfs.err.NotADirectory}
 	}
 
@@ -445,7 +445,7 @@ func (f *OrefaFile) Seek(offset int64, whence int) (ret int64, err error) {
 	}
 
 	nd := f.nd
-	if nd.mode.IsDir() {
+	if nd.isDir {
 		return 0, nil
 	}
 
@@ -563,7 +563,7 @@ func (f *OrefaFile) Truncate(size int64) error {
 	}
 
 	nd := f.nd
-	if nd.mode.IsDir() {
+	if nd.isDir {
 		err := error(avfs.ErrInvalidArgument)
 		if f.vfs.OSType() == avfs.OsWindows {
 			err = avfs.ErrWinAccessDenied
@@ -617,7 +617,7 @@ func (f *OrefaFile) Write(b []byte) (n int, err error) {
 	}
 
 	nd := f.nd
-	if nd.mode.IsDir() {
+	if nd.isDir {
 		err = avfs.ErrBadFileDesc
 		if f.vfs.OSType() == avfs.OsWindows {
 			err = avfs.ErrWinAccessDenied
@@ -704,7 +704,7 @@ func (f *OrefaFile) WriteAt(b []byte, off int64) (n int, err error) {
 	}
 
 	nd := f.nd
-	if nd.mode.IsDir() {
+	if nd.isDir {
 		err = avfs.ErrBadFileDesc
 		if f.vfs.OSType() == avfs.OsWindows {
 			err = avfs.ErrWinAccessDenied
